@@ -24,6 +24,7 @@ type scriptConn struct {
 	out      []byte   // bytes written since the last boundary
 	units    [][]byte // completed reply units
 	expired  bool     // watchdog fired
+	readErr  error    // Read fails with this error once the input is drained
 }
 
 func newScriptConn() *scriptConn {
@@ -49,7 +50,7 @@ func (c *scriptConn) Read(p []byte) (int, error) {
 		c.lineDone = false
 		c.boundary()
 	}
-	for len(c.in) == 0 && !c.eof && !c.closed {
+	for len(c.in) == 0 && !c.eof && !c.closed && c.readErr == nil {
 		c.waiting = true
 		c.cond.Broadcast()
 		c.cond.Wait()
@@ -59,6 +60,9 @@ func (c *scriptConn) Read(p []byte) (int, error) {
 		return 0, net.ErrClosed
 	}
 	if len(c.in) == 0 {
+		if c.readErr != nil {
+			return 0, c.readErr
+		}
 		return 0, io.EOF
 	}
 	n := len(c.in)
@@ -151,6 +155,22 @@ func (c *scriptConn) sendEOF() {
 	c.eof = true
 	c.cond.Broadcast()
 	c.mu.Unlock()
+}
+
+type timeoutErr struct{}
+
+func (timeoutErr) Error() string   { return "i/o timeout" }
+func (timeoutErr) Timeout() bool   { return true }
+func (timeoutErr) Temporary() bool { return true }
+
+// failRead makes the server's pending Read fail and waits for the session to end.
+func (c *scriptConn) failRead(err error) bool {
+	c.mu.Lock()
+	c.readErr = err
+	c.waiting = false
+	c.cond.Broadcast()
+	c.mu.Unlock()
+	return c.waitIdle()
 }
 
 func (c *scriptConn) breakWrites() {
